@@ -2,6 +2,7 @@ import NxProofs.NexStreams
 import NxProofs.NexCommon
 import NxProofs.NexErrors
 import NxProofs.NexDateTime
+import NxProofs.NexStationURL
 /-!
 # C15 — NEX value encodings are lossless
 
@@ -13,8 +14,8 @@ Every round trip has the exact-consumption form: if the writer succeeds with byt
 where `struct.pack` raises — see the `…_ok_iff` theorems), the reader applied to `b ++ rest` returns the
 value and leaves exactly `rest`, for every `rest`.
 
-NOT proved here (differential only, see manifest): StationURL `parse (repr u) = u` and typed `getitem`
-(`stationurl_roundtrip` of DESIGN §5 — model and tie exist, the proof does not);
+NOT proved here (differential only, see manifest): typed `getitem` after `parse (repr u)` for *int-valued*
+parameters (needs `int(str(n)) = n` for the modelled `int()`; model and tie exist, the proof does not);
 `civilOfDays (daysOfCivil y m d) = (y, m, d)` (the other direction of the calendar bijection).
 -/
 namespace Nx.C15
@@ -180,6 +181,32 @@ example : yearOk (1596279690 + 20700 + (epochZ * 86400 : Nat)) = true ∧ yearOk
     yearOk (1596279690 + 20700 + (epochZ * 86400 : Nat) + 20700) = true := by decide
 open DateTime in
 example : fromTimestamp 0 1596279690 = .ok (make ⟨2020, 8, 1, 11, 1, 30⟩) := by decide
+
+/-! ## StationURL: text form -/
+
+open StationURL in
+/-- `parse (repr u)` returns the scheme and every parameter in order, values as the strings `repr` printed, for a
+non-empty scheme without `:`, names/values free of `; = : /`, distinct names other than `scheme`/`self` -/
+theorem stationurl_parse_repr (u : URL) (h : WF u) : parse (some (repr u)) = .ok (strVals u) := parse_repr u h
+
+open StationURL in
+/-- … and a URL holding string values (e.g. any parsed one) comes back identical -/
+theorem stationurl_roundtrip_partial (u : URL) (h : WF u) (hs : ∀ p ∈ u.params, ∃ s, p.2 = PVal.s s) :
+    parse (some (repr u)) = .ok u := by
+  rw [parse_repr u h, strVals_of_str u hs]
+
+open StationURL in
+theorem stationurl_stream_roundtrip (u : URL) (h : WF u) {b : Bytes} (hw : wStationURL u = .ok b) (rest : Bytes) :
+    rStationURL (b ++ rest) = .ok (strVals u, rest) := rStationURL_wStationURL u h hw rest
+
+open StationURL in
+example : WF ⟨"prudp".toList, [("address".toList, .s "1.2.3.4".toList), ("port".toList, .i 1223)]⟩ :=
+  ⟨by decide, by decide, by decide, by decide, by decide⟩
+open StationURL in
+example : parse (some "prudp:/address=1.2.3.4;port=1223".toList) =
+    .ok ⟨"prudp".toList, [("address".toList, .s "1.2.3.4".toList), ("port".toList, .s "1223".toList)]⟩ := by decide
+open StationURL in
+example : getitem ⟨"prudp".toList, [("port".toList, .s "1223".toList)]⟩ "port".toList = .ok (.i 1223) := by decide
 
 /-! ## Result: the error bit, and the code ↔ name table -/
 
